@@ -51,6 +51,7 @@ def lean_text(s: str) -> str:
 # Python rebinding = Lean `let` shadowing; statements after an `if` are copied into both branches.
 
 TABLES = {"ROMAN_ONES": "text", "ROMAN_FIVES": "text"}      # list of str: element kind
+INT_CONSTANTS = ("ROMAN_MAX",)                               # module-level integer literals, emitted as Lean defs
 CMP = {ast.Eq: "=", ast.NotEq: "≠", ast.Lt: "<", ast.LtE: "≤", ast.Gt: ">", ast.GtE: "≥"}
 
 
@@ -72,6 +73,8 @@ class Body:
             return ("true" if e.value else "false"), "bool"
         if isinstance(e, ast.Constant) and isinstance(e.value, int):
             return (str(e.value) if e.value >= 0 else f"({e.value})"), "int"
+        if isinstance(e, ast.Name) and e.id in INT_CONSTANTS and e.id not in self.kinds:
+            return e.id, "int"
         if isinstance(e, ast.Name):
             if e.id not in self.kinds:
                 raise P.Untranslatable(f"unknown name {e.id}")
@@ -402,6 +405,11 @@ def generate(lean_dir: str):
     for name in ("ROMAN_ONES", "ROMAN_FIVES"):
         v = str_list(P.find_assign(mod, name), name)
         out.append(f"def {name} : List CodePoints := [" + ", ".join(lean_text(s) for s in v) + "]\n\n")
+    for name in INT_CONSTANTS:
+        v = P.literal(P.find_assign(mod, name))
+        if not isinstance(v, int) or isinstance(v, bool):
+            raise P.Untranslatable(f"{name} is not an integer literal")
+        out.append(f"/-- `{name}` of pdfminer/utils.py -/\ndef {name} : Int := {v}\n\n")
     tab = pdfdoc_table(P.find_assign(mod, "PDFDocEncoding"))
     rows = [", ".join(str(x) for x in tab[i:i + 16]) for i in range(0, len(tab), 16)]
     out.append("def PDFDocEncoding : List Nat := [\n  " + ",\n  ".join(rows) + "]\n\n")
